@@ -164,6 +164,32 @@ def step(w, kind, op):
     if kind == "sorted":
         qs = [w.q(mm, t) for mm, t in op[1]]
         return [enc_q(w, x) for x in sorted(qs)]
+    if kind == "little_stack":
+        # the question is asked from deep inside the program's own recursion: only `free` interpreter frames are left,
+        # so the search may die of RecursionError anywhere.  The operands are built first, with all the stack there is
+        free, inner = op[1], op[2]
+        import operator
+        import sys
+
+        if inner[0] == "convert":
+            a, dst = w.q(inner[1], inner[2]), w.unit(inner[3])
+            ask = lambda: enc_q(w, a.in_unit(dst), dst)
+        elif inner[0] in ("eq", "lt"):
+            a, b = w.q(inner[1], inner[2]), w.q(inner[3], inner[4])
+            ask = lambda: bool(getattr(operator, inner[0])(a, b))
+        else:
+            raise ValueError(f"little_stack cannot wrap {inner[0]}")
+        depth, f = 0, sys._getframe()
+        while f is not None:
+            depth, f = depth + 1, f.f_back
+        old = sys.getrecursionlimit()
+        sys.setrecursionlimit(depth + free)
+        try:
+            return ["answered", ask()]
+        except RecursionError:
+            return ["ran-out-of-stack"]
+        finally:
+            sys.setrecursionlimit(old)
     if kind == "decimal_prec":
         import decimal
         decimal.getcontext().prec = op[1]     # the program changes the ambient decimal precision (for everything after)
